@@ -184,7 +184,7 @@ fn workload_strategy(cfg: UCfg) -> impl Strategy<Value = Workload> {
       messages_strategy(cfg, k, 16),
       proptest::collection::vec(1u16..9000, 1..12),
       prop_oneof![3 => Just(None), 1 => Just(Some(2048u32)), 1 => Just(Some(cfg.recv_size))],
-      prop_oneof![3 => Just(FeedTail::Sentinel), 1 => Just(FeedTail::OversizeFrame), 1 => Just(FeedTail::HalfFrameThenClose)],
+      prop_oneof![3 => Just(FeedTail::Sentinel), 1 => Just(FeedTail::OversizeFrame), 1 => Just(FeedTail::HalfFrameThenClose), 2 => Just(FeedTail::CloseAfterLast)],
     )
       .prop_map(move |(msgs, chunks, maxmsgsize, tail)| Workload::RawFeed { knobs: k, msgs, chunks, maxmsgsize, tail });
     let reconn = (1u8..4, prop_oneof![Just(64u32), Just(cfg.send_size), Just(cfg.recv_size + 1)]).prop_map(move |(drops, size)| Workload::RawReconnect { knobs: k, drops, size });
@@ -353,7 +353,7 @@ fn brief(d: &[Vec<String>]) -> Vec<String> {
 }
 
 pub fn run(run: &mut Run) {
-  run.rule = "case = (pool configuration: send pool 2..16 buffers of 4..64 KiB, receive ring 2..16 buffers of 4..64 KiB, default zero-copy / multishot) + 1..5 workloads, each run on the Tokio backend and on io_uring in one child process. Workloads: rzmq-to-rzmq streams (PUSH/PULL, DEALER/ROUTER echo, REQ/REP, PUB/SUB; io_uring on both ends / sender / receiver; NULL, PLAIN, CURVE incl. wrong credentials; 1..3 reconnects; frame sizes at 0, the header boundary, the zero-copy threshold, the receive buffer, the send buffer and multiples), a raw peer that stops reading (back-pressure, SNDTIMEO), a raw peer that breaks the handshake in 7 ways, a raw peer feeding chunked traffic ending in a sentinel / oversize frame / reserved flag bits / half a frame. Non-trivial = at least one connection was actually driven by an io_uring handler (fd life-cycle log). Distinct = case hash".into();
+  run.rule = "case = (pool configuration: send pool 2..16 buffers of 4..64 KiB, receive ring 2..16 buffers of 4..64 KiB, default zero-copy / multishot) + 1..5 workloads, each run on the Tokio backend and on io_uring in one child process. Workloads: rzmq-to-rzmq streams (PUSH/PULL, DEALER/ROUTER echo, REQ/REP, PUB/SUB; io_uring on both ends / sender / receiver; NULL, PLAIN, CURVE incl. wrong credentials; 1..3 reconnects; frame sizes at 0, the header boundary, the zero-copy threshold, the receive buffer, the send buffer and multiples), a raw peer that stops reading (back-pressure, SNDTIMEO), a raw peer that breaks the handshake in 7 ways, a raw peer feeding chunked traffic ending in a sentinel / an oversize frame / half a frame then FIN / FIN right behind the last message. Non-trivial = at least one connection was actually driven by an io_uring handler (fd life-cycle log). Distinct = case hash".into();
   run.assumptions = vec![
     "equivalence is judged on delivered messages per connection, the set of monitor event kinds, the set of error kinds and what a raw peer observed; counts of timeouts under back-pressure and timing are not compared".into(),
     "a workload whose reference (Tokio) run already fails its accounting is not judged".into(),
@@ -1111,12 +1111,17 @@ pub mod child {
         }
       }
     }
+    if matches!(tail, FeedTail::CloseAfterLast | FeedTail::HalfFrameThenClose) {
+      // the loop above ended with the receive timeout, which is expected here
+      obs.errors.remove("recv:timeout");
+      obs.errors.remove("recv:would_block");
+    }
     if conn != expected && !(cut && expected.starts_with(&conn)) {
       obs.abs_violation.get_or_insert(format!("fed {} messages (deliverable {:?}), delivered {:?}", msgs.len(), expected.len(), conn.len()));
     }
     // with a poisoned stream, how many of the earlier messages come out before the close is a
     // race in both backends: compare the verdict, not the count
-    if cut || !matches!(tail, FeedTail::Sentinel) {
+    if cut || !matches!(tail, FeedTail::Sentinel | FeedTail::CloseAfterLast | FeedTail::HalfFrameThenClose) {
       let prefix_ok = expected.starts_with(&conn);
       obs.delivered.push(vec![format!("prefix-of-valid:{}", prefix_ok)]);
       if !prefix_ok {
@@ -1136,7 +1141,7 @@ pub mod child {
     }
     obs.events.remove("Disconnected");
     if cut || !matches!(tail, FeedTail::Sentinel) {
-      // a connection that is poisoned right behind the handshake can die before the socket core
+      // a connection that is poisoned (or closed by the peer) right behind the handshake can die before the socket core
       // has registered it; whether HandshakeSucceeded is still emitted then is a race inside
       // either backend, not a difference between them
       obs.events.remove("HandshakeSucceeded");
